@@ -549,6 +549,11 @@ class Interp:
         # init (definitional lemmas are available at index 0 as well)
         for lem in spec.get('lemmas', []):
             self.assume(self.spec_bool(lem, inv_env(z3.IntVal(0))))
+        # a list with a known spine that the loop spec types as a sequence is looked at as that
+        # sequence from here on (same value; `xs[j0]` with a symbolic index needs the sequence view)
+        for n, t in spec.get('types', {}).items():
+            if isinstance(self.env.get(n), VList) and parse_ty(t).name == 'seq':
+                self.env[n] = models.seq_of(self, self.env[n], parse_ty(t).args[0])
         for j, inv in enumerate(spec.get('inv', [])):
             self.oblige('%s.init[%d]' % (base, j), self.spec_bool(inv, inv_env(z3.IntVal(0))),
                         'inv', {'text': inv})
@@ -724,7 +729,19 @@ class Interp:
 
     def ex_BoolOp(self, e):
         if self.spec_mode:
-            vals = [self.eval(v) for v in e.values]
+            vals = []
+            for sub in e.values:
+                v = self.eval(sub)
+                vals.append(v)
+                # python's own short circuit, when the operand is decided outright (so that
+                # `len(xs) == 0 or xs[0]...` can be stated about a list whose spine is known)
+                try:
+                    ts_ = z3.simplify(truth(v))
+                except Exception:
+                    ts_ = None
+                if ts_ is not None and ((isinstance(e.op, ast.Or) and z3.is_true(ts_)) or
+                                        (isinstance(e.op, ast.And) and z3.is_false(ts_))):
+                    break
             if all(isinstance(v, (VBool,)) for v in vals):
                 ts = [v.t for v in vals]
                 return VBool(z3.And(*ts) if isinstance(e.op, ast.And) else z3.Or(*ts))
@@ -806,7 +823,53 @@ class Interp:
         return models.get_item(self, obj, idx)
 
     def ex_ListComp(self, e):
+        m = self._comp_map(e)
+        if m is not None:
+            return m
         return VList(self._comp(e, e.elt))
+
+    def _comp_map(self, e):
+        """MAP RULE: `[f(x) for x in SEQ]` over a symbolic sequence, when the contract names a ghost
+        index (`ghost['comprehension_index']`).  The result is a fresh sequence of the same length;
+        the element expression is executed once, for an ARBITRARY index q (so every way it can
+        raise is a path of the caller) which is the ghost index whenever that is in range; only
+        `result[q] == f(SEQ[q])` is assumed.  Sound for every element because q is arbitrary; the
+        element expression must not write (checked: no named expression, only calls of methods
+        under contract or pure models - anything else is Unsupported inside eval)."""
+        gname = (getattr(self.contract, 'ghost', None) or {}).get('comprehension_index')
+        if gname is None or self.spec_mode or len(e.generators) != 1:
+            return None
+        g = e.generators[0]
+        if g.ifs or not isinstance(g.target, ast.Name) or g.is_async:
+            return None
+        if any(isinstance(n, ast.NamedExpr) for n in ast.walk(e.elt)):
+            return None
+        it = self.eval(g.iter)
+        if models.concrete_iter(self, it) is not None or not isinstance(it, VSeq):
+            return None
+        if gname not in self.env:
+            return None
+        n = models.symbolic_len(self, it)
+        j0 = self.env[gname].t
+        if not self.decide(n > 0, 'comp-nonempty'):
+            from .values import fresh as _fresh
+            r = _fresh(Ty('seq', [it.ty]), 'comp')
+            self.assume(z3.Length(r.t) == 0)
+            return r
+        q = z3.Int(fresh_name('comp_q'))
+        self.assume(z3.And(q >= 0, q < n))
+        self.assume(z3.Implies(z3.And(j0 >= 0, j0 < n), q == j0))
+        saved = dict(self.env)
+        self.assign(g.target, models.symbolic_item(self, it, q))
+        v = self.eval(e.elt)
+        self.env = saved
+        from .values import fresh as _fresh, ty_of as _ty_of
+        r = _fresh(Ty('seq', [_ty_of(v)]), 'comp')
+        self.assume(z3.Length(r.t) == n)
+        from .values import unwrap as _unwrap
+        self.assume(r.t[q] == _unwrap(r.ty, v))
+        models.used('comprehension map rule (ghost index %s)' % gname)
+        return r
 
     def ex_GeneratorExp(self, e):
         if self.spec_mode and len(e.generators) == 1:
